@@ -603,6 +603,26 @@ def _call_sites(w, fi):
   return out
 
 
+def _params_flow_from(w, fn, flow, expr, src):
+  """`expr` is built from parameters of a private helper, and at every call site of the helper
+  the corresponding arguments are built from an expression satisfying src."""
+  ps = [p for p in fn.fi.params() if p not in ("self", "cls") and
+        flow.du.flows_from(lambda x, p=p: isinstance(x, ast.Name) and x.id == p and
+                           isinstance(x.ctx, ast.Load), expr)]
+  sites = _call_sites(w, fn.fi)
+  if not ps or not sites:
+    return False
+  for (cfn, cn, cc) in sites:
+    try:
+      b = bind_args(cc, fn.fi)
+    except AnalysisError:
+      return False
+    cflow = _flow_of(cfn)
+    if not any(p in b and cflow.du.flows_from(src, b[p]) for p in ps):
+      return False
+  return True
+
+
 def _only_called_from(w, fi, funcs, depth=0):
   """fi is one of `funcs`, or a private helper called only from them (one or two levels)."""
   if fi.qualname in funcs:
@@ -639,7 +659,8 @@ def _classify_root(w, fn, flow, r, names, extra, depth=0):
       if len(ctor.args) == 3:
         src = lambda x: isinstance(x, ast.Call) and isinstance(x.func, ast.Attribute) and \
             x.func.attr == "get_updates_for_removed_target_rows"
-        if all(flow.du.flows_from(src, a) for a in ctor.args[1:]):
+        if all(flow.du.flows_from(src, a) or _params_flow_from(w, fn, flow, a, src)
+               for a in ctor.args[1:]):
           return True, True
       return "raw %s built outside convert_action_values" % "/".join(sorted(cn)), True
     if _is_convert(r.node, nm):
@@ -1096,6 +1117,44 @@ def _synth_within(t, container):
   return any(id(y) in ids for y in ast.walk(t) if isinstance(y, ast.expr))
 
 
+def expr_atoms(fnode, expr):
+  """Atoms that hold when `expr` is evaluated: guards of its statement plus the tests of the
+  conditional expressions / comprehension filters it sits in."""
+  parents = {}
+  for n in ast.walk(fnode):
+    for ch in ast.iter_child_nodes(n):
+      parents[id(ch)] = n
+  atoms = []
+  cur = expr
+  stmt = None
+  while id(cur) in parents:
+    par = parents[id(cur)]
+    if isinstance(par, ast.IfExp):
+      if cur is par.body:
+        atoms += split_guard(par.test, True)
+      elif cur is par.orelse:
+        atoms += split_guard(par.test, False)
+    elif isinstance(par, ast.BoolOp) and isinstance(par.op, ast.And):
+      i = [k for k, v in enumerate(par.values) if v is cur][0]
+      for v in par.values[:i]:
+        atoms += split_guard(v, True)
+    elif isinstance(par, (ast.ListComp, ast.SetComp, ast.GeneratorExp, ast.DictComp)):
+      if not any(cur is g for g in par.generators):
+        for g in par.generators:
+          for t in g.ifs:
+            atoms += split_guard(t, True)
+    if isinstance(par, ast.stmt):
+      stmt = par
+      break
+    cur = par
+  if stmt is not None:
+    if isinstance(stmt, (ast.If, ast.While)) and cur is stmt.test:
+      atoms += guard_atoms(fnode, stmt)
+    else:
+      atoms += guard_atoms(fnode, stmt)
+  return atoms
+
+
 def inline(flow, expr, nid=None, stop=(), depth=6):
   """Copy of `expr` in which every local name that has exactly one reaching binding at the point
   of evaluation, a plain `name = value` assignment, is replaced by that value (recursively).
@@ -1205,7 +1264,7 @@ def f_eval(f, env):
   return any(f_eval(x, env) for x in f[1])
 
 
-def f_equivalent(f1, f2, given=None, limit=12):
+def f_equivalent(f1, f2, given=None, limit=16):
   """Truth-table equivalence of two formulas (under the assumption `given`, a formula, when
   present). Raises AnalysisError when there are too many atoms to enumerate."""
   atoms = f_atoms(f1)
@@ -1313,12 +1372,15 @@ class Conditions(object):
         value = f_or(f_and(gf, v), f_and(f_not(gf), value))
     return value
 
-  def of_stmt(self, stmt, scope=None, extra=()):
+  def of_stmt(self, stmt, scope=None, extra=(), keep=None):
     """Conjunction of the guards under which `stmt` runs (only the tests inside `scope`, an ast
-    node, when given), plus extra (test, polarity) pairs."""
+    node, resp. the tests satisfying keep(test), when given), plus extra (test, polarity)
+    pairs."""
     parts = []
     for (t, p) in list(guards_of(self.fn.node, stmt)) + list(extra):
       if scope is not None and not _synth_within(t, scope):
+        continue
+      if keep is not None and not keep(t):
         continue
       f = self.of_expr(t)
       parts.append(f if p else f_not(f))
